@@ -420,6 +420,38 @@ def gen_flat(o, sizes=(4, 600)):
     return out
 
 
+def gen_long_numbers(rng, n):
+    """Valid RFC 8259 number literals of 50..63 characters (63 is the longest the reader accepts), as integers,
+    fractions and exponent forms, at top level and inside containers; want = the literal itself."""
+    out, wants = [], []
+    for _ in range(n):
+        L = rng.choice([50, 60, 61, 62, 63, 63, 63])
+        kind = rng.randrange(4)
+        if kind == 0:
+            lit = "0." + "".join(rng.choice("0123456789") for _ in range(L - 3)) + rng.choice("123456789")
+        elif kind == 1:
+            lit = "-" + rng.choice("123456789") + "".join(rng.choice("0123456789") for _ in range(L - 6)) + ".5e1"
+        elif kind == 2:
+            lit = rng.choice("123456789") + "".join(rng.choice("0123456789") for _ in range(L - 5)) + "E-10"
+        else:
+            lit = rng.choice("123456789") + "." + "".join(rng.choice("0123456789") for _ in range(L - 2))
+        assert len(lit) == L, (len(lit), L)
+        v = node("#", lit.encode())
+        ctx = rng.randrange(3)
+        if ctx == 0:
+            text, want = lit.encode(), v
+        elif ctx == 1:
+            text, want = b"[" + lit.encode() + b",1]", node("a", c=[v, node("#", b"1")])
+        else:
+            text, want = b'{"k":' + lit.encode() + b"}", node("o", c=[node("m", b"k", [v])])
+        out.append(line(text, OPTS_FOR_LONG, lim=10, tag="longnumber"))
+        wants.append(want)
+    return out, wants
+
+
+OPTS_FOR_LONG = dict(comments=False, nan=False, inf=False, unicode=True)
+
+
 def gen_escape_offsets(o, maxoff=140):
     """\\u escapes (2-, 3-, 4-byte results, NUL, a named escape) at every offset of a string or key, so
     that the decoded bytes land on every position of the string buffer (which starts at 31 bytes and doubles)."""
